@@ -819,6 +819,8 @@ fn sibling_unit(name: &str, skeleton_seed: u64, variant: u64, procs: usize) -> S
         s
     };
     let mut out = format!("unit {name};\n\ninterface\n\nimplementation\n\n");
+    // at most a few lines whose layout search is expensive (thousands of iterations each)
+    let mut heavy_left = 3;
     for p in 0..procs {
         out.push_str(&format!("procedure Proc{p}(AValue: Integer);\nbegin\n"));
         for _ in 0..sk.range(2, 7) {
@@ -831,6 +833,26 @@ fn sibling_unit(name: &str, skeleton_seed: u64, variant: u64, procs: usize) -> S
                 4 => out.push_str(&format!("  if AValue > {n} then\n    {call}\n  else\n    {call};\n")),
                 5 => out.push_str(&format!("  Run(procedure begin {call}; end);\n")),
                 6 => out.push_str(&format!("  if AValue > {n} then begin\n    {call};\n    {call};\n  end;\n")),
+                7 if heavy_left > 0 && sk.chance(1, 3) => {
+                    heavy_left -= 1;
+                    // a line whose layout search is expensive: a deep chain of nested calls
+                    // ending in a long literal
+                    let depth = sk.range(3, 10);
+                    let mut line = String::from("  Value := ");
+                    for d in 0..depth {
+                        line.push_str(&format!("Obj{d}.Get{d}(Arg{d} + "));
+                    }
+                    line.push('\'');
+                    for _ in 0..sk.range(20, 150) {
+                        line.push('x');
+                    }
+                    line.push('\'');
+                    for _ in 0..depth {
+                        line.push(')');
+                    }
+                    line.push_str(";\n");
+                    out.push_str(&line);
+                }
                 _ => out.push_str(&format!("  {} := {} + AValue * {n};\n", ident(&mut vr, "Total"), ident(&mut vr, "Total"))),
             }
         }
